@@ -28,7 +28,7 @@ def make_plan(seed: int, tier: str, opts: dict) -> dict:
         if eps[j]["ending"] == "none" and eps[j + 1]["api"] != "gym":
             eps[j]["ending"] = "stop"
     do_compiled = r.random() < opts.get("compiled_p", 0.5)
-    cc = dict(mode=r.choice(compiled.MODES), prune=r.random() < 0.5, api=r.choice(["rollout_carry", "run_jit", "gym_jit", "gym_override", "run_eager"])) if do_compiled else None
+    cc = dict(mode=r.choice(compiled.MODES), prune=r.random() < 0.5, api=r.choice(["rollout_carry", "rollout_full", "run_jit", "gym_jit", "gym_override", "run_eager"])) if do_compiled else None
     for ep in eps:
         ep["until_active"] = True
     return dict(spec=spec, seed=seed, episodes=eps, clock="sim", line_rate=r.choice([0.0, 0.0, 0.01]), compile=cc)
